@@ -8,13 +8,32 @@ from vlib import obligations as OBL
 TECH_E1 = 'bounded symbolic model checking of the real C++ (clang LLVM IR -> ir2c.py -> cbmc 6.11 SAT), counterexamples replayed natively under ASan'
 TECH_E2 = 'bounded symbolic model checking over schedules: real Worker.hpp / block-constructor IR made resumable at blocking primitives, scheduler choices are solver variables (cbmc)'
 
+def E1(ref, text, note): return (ref, text, note, TECH_E1)
+def E2(ref, text, note): return (ref, text, note, TECH_E2)
+BASE_NOTE = 'clang-14 -O1 IR of /repo; ir2c.py (checked per obligation by a native differential self-test); rt/stubs.c environment model (allocation never fails, streams, logging, exceptions = abnormal termination); cbmc 6.11 + SAT; bounds as listed in the evidence file'
 CLAIMS = {
-    # id: (design_ref, text, note, technique)
-    'C17': ('3/C17', 'For every value / width / position inside the stated bounds the solver proves round-trip and non-interference of the real VByte, LogSequence and libcds field kernels; DAC units as listed in the evidence. Bounded, so not a proof for arbitrary capacities.',
-            'clang-14 IR, ir2c.py, rt/stubs.c stream model, cbmc; capacities <= 3-4 entries', TECH_E1),
+ 'C01': E1('3/C01', 'Solver-decided for ALL valid input sets within the bounds (PFC whole kind: n<=3..5 strings of <=2..3 bytes over 0x02..0xFE, every bucket size listed): locate/extract are mutually inverse, lengths and terminators exact, on the fresh object and on the object reloaded from its image; DAC_VLS unit for the Re-Pair kinds\' sequence store incl. the list length the constructors pass. Other kinds: units only (DESIGN.md table).', BASE_NOTE),
+ 'C02': E1('3/C02', 'For all valid sets within the PFC bounds and ALL queries up to LMAX+1 bytes: locate returns the rank for members and 0 otherwise; extract of 0 / any id > n (full size_t range) is NULL with length 0; the ID-range guard of extract is decided for all 12 default-constructible kinds over the full (id, elements) range; pointer and bounds checks on.', BASE_NOTE),
+ 'C03': E1('3/C03', 'PFC whole kind within the bounds: IDs are ranks in unsigned-byte order (extract(i) < extract(j) for all i<j, extract(i) = i-th input string, locateRank/extractRank consistent). Other order-preserving kinds are outside solver reach (DESIGN.md).', BASE_NOTE),
+ 'C04': E1('3/C04', 'PFC whole kind within the bounds and ALL patterns up to LMAX+1 bytes: locatePrefix yields exactly the contiguous ascending ID range of the members that start with the pattern (empty stream with NORESULT limits otherwise), extractPrefix exactly those strings; IteratorDictIDContiguous unit over all limits.', BASE_NOTE),
+ 'C06': E1('3/C06', 'PFC whole kind within the bounds: save -> kind loader / generic loader -> same answers, bytes consumed == bytes written, re-save identical; save/load/save units for LogSequence, DAC_VLS, DAC_BVLS, BitSequenceRG (generic bitmap loader), BitString; generic dictionary loader\'s tag dispatch for all 2^32 tags.', BASE_NOTE),
+ 'C07': E1('3/C07', 'Every obligation of every E1 property runs with cbmc\'s pointer/bounds/use-after-free/double-free checks and unwinding assertions (termination within the bound). C07 adds: PFC construction with the MEMALLOC hook set to 2..4 so the text buffer must grow (Reallocate exercised), 2-call API histories incl. iterators, save and destroy, Reallocate unit, DAC_VLS access bounds, duplicate-skipping iterator.', BASE_NOTE + '; hook LIBCSD_VERIF_MEMALLOC'),
+ 'C08': E1('3/C08', 'PFC within the bounds: two saves identical, build-twice images byte-identical (uninitialised heap bytes are nondeterministic in the model, so a stray byte fails), save of a loaded image reproduces it, image unchanged by a query; same for DAC_VLS/DAC_BVLS/LogSequence units.', BASE_NOTE),
+ 'C09': E2('3/C09', 'Real HASHRPDACBlocks constructor + real WorkerPool under every schedule within the bounds: blocks land in input order, every slot filled before the constructor returns, same parts/indexes for 1 and 2 workers; the per-block builder is abstracted by name.', BASE_NOTE + '; rt/e2_rt.h primitive model'),
+ 'C10': E2('3/C10', 'Real parallel/Worker.hpp (WorkerPool, Worker, WorkerQueue; real std::function, real condition-variable predicate loop) under EVERY schedule with at most K-1 context switches (pre-emption at every lock / wait / join point): no deadlock (lost wake-up, wait_workers not returning), every task runs exactly once and never concurrently with itself. Counterexample schedules are replayed on real threads under a schedule-forcing pthread layer.', 'clang-14 -O1 IR incl. libstdc++ header code; ir2c.py resumable mode; rt/e2_rt.h (mutex, condition variable, thread start/join model; sequentially consistent); task queue container replaced by a bounded FIFO (harness); cbmc'),
+ 'C11': E2('3/C11', 'Same models as C10/C09 with a happens-before race monitor on the shared objects.', 'as C10'),
+ 'C12': E1('3/C12', 'Two PFC dictionaries built from the same symbolic input with different bucket sizes (incl. 0 and 1, which must be replaced by 2) answer every locate / extract(any id) / locatePrefix query identically, for all inputs within the bounds.', BASE_NOTE),
+ 'C13': E1('3/C13', 'PFC extractTable within the bounds: exactly n strings, k-th == extract(k), reported length == strlen, hasNext false afterwards; extractPrefix iterators from every in-bucket offset; ID iterators (contiguous, duplicates with the caller-written sentinel, non-contiguous) and the vector string iterator over symbolic backing arrays.', BASE_NOTE),
+ 'C14': E1('3/C14', 'PFC within the bounds: for ALL query pairs (A,B) the answer to A is the same before and after B with an iterator left open, pattern buffers (incl. guard byte) unchanged, and the saved image of the object is bit-identical before and after any single query (inductive step for histories of any length).', BASE_NOTE),
+ 'C15': E1('3/C15', 'PFC within the bounds: numElements == n and len_max <= maxLength <= len_max+1 on the fresh and on the reloaded object.', BASE_NOTE),
+ 'C16': E1('3/C16', 'Unsupported operations return NULL/NORESULT and leave the pattern alone on all 12 default-constructible kinds (symbolic patterns/ranks); every kind\'s loader returns NULL on ANY other tag (all 2^32-1 values) having consumed exactly 4 bytes; generic loader dispatch for all 2^32 tags.', BASE_NOTE),
+ 'C17': E1('3/C17', 'VByte/VB2 round trip for all 2^32 values; LogSequence set/get for every width 1..64, symbolic positions/values, overwrites, save/load; libcds 32-bit field kernels; DAC_VLS/DAC_BVLS access of every sequence incl. length-1, maximal and last sequence, save/load.', BASE_NOTE),
+ 'C19': E1('3/C19', 'BitSequenceRG (the bitmap libCSD instantiates) for ALL bitmaps of the listed lengths and sampling factors: access, rank1, rank0, select1, select0, selectNext1 equal their plain definitions; unchanged after save/generic load; BitString. RRR, SDArray, DArray and the wavelet trees are outside solver reach (not claimed).', BASE_NOTE),
 }
 
-NA = {}
+NA = {
+ 'C05': 'substring search exists only in FMINDEX and XBW, whose answers depend on suffix sorting, BWT, wavelet trees and the XBW trie: none of that construction code is encodable within solver reach (DESIGN.md section 3/C05); the duplicate-skipping ID iterator is verified under C13',
+}
 
 
 def main():
